@@ -488,3 +488,55 @@ where
     let local = tokio::task::LocalSet::new();
     local.block_on(&rt, f)
 }
+
+
+// ---------------------------------------------------------------------------------------
+// the whole application in a child process: `netsim C14-child ...` runs passage::start(config)
+// ---------------------------------------------------------------------------------------
+
+pub struct App {
+    pub child: std::process::Child,
+    pub addr: SocketAddr,
+}
+
+/// `proxy` is off | v1 | v2 | v1v2; `limit` 0 = no rate limiter (window one hour otherwise)
+pub fn spawn_app(max_packet_length: u64, expiry: u64, timeout: u64, proxy: &str, limit: usize) -> App {
+    let port = free_port();
+    let exe = std::env::current_exe().expect("exe");
+    let child = std::process::Command::new(exe)
+        .args(["C14-child", &port.to_string(), &max_packet_length.to_string(), &expiry.to_string(), &timeout.to_string(), if proxy.is_empty() { "off" } else { proxy }, &limit.to_string()])
+        .stdout(std::process::Stdio::null())
+        .stderr(std::process::Stdio::null())
+        .spawn()
+        .expect("spawn child");
+    let addr: SocketAddr = format!("127.0.0.1:{port}").parse().unwrap();
+    for _ in 0..600 {
+        // probe from an address no check uses, so that no rate-limit budget of a checked address is spent
+        let ok = std::net::TcpStream::connect_timeout(&addr, Duration::from_millis(200)).is_ok();
+        if ok {
+            std::thread::sleep(Duration::from_millis(20));
+            return App { child, addr };
+        }
+        std::thread::sleep(Duration::from_millis(10));
+    }
+    common::machinery("passage::start did not start listening within 6 s")
+}
+
+/// stops the application the way an operator does (ctrl-c) and returns its exit status
+pub fn stop_app(mut app: App) -> Option<i32> {
+    unsafe {
+        libc::kill(app.child.id() as i32, libc::SIGINT);
+    }
+    let t0 = Instant::now();
+    loop {
+        if let Ok(Some(st)) = app.child.try_wait() {
+            return st.code();
+        }
+        if t0.elapsed() > Duration::from_secs(8) {
+            let _ = app.child.kill();
+            let _ = app.child.wait();
+            return None;
+        }
+        std::thread::sleep(Duration::from_millis(20));
+    }
+}
